@@ -110,19 +110,42 @@ func scenChain(c *hx.Ctx, in Input) {
 			}
 		}
 	}
+	dead := false
+	// addBlock commits a block; a panic inside the ledger is reported as a failing input and ends the scenario
+	addBlock := func(txs []*types.Transaction) *types.Block {
+		var b *types.Block
+		var err error
+		p, msg := hx.Recover(func() { b, err = k.AddBlock(txs) })
+		if p {
+			dead = true
+			if len(msg) > 300 {
+				msg = msg[:300]
+			}
+			c.Fail("index:panic", "committing a block panics", in, fmt.Sprintf("height %d: %s", ch.height()+1, msg), "no panic")
+			return nil
+		}
+		if err != nil {
+			panic(fmt.Sprintf("AddBlock at %d: %v", ch.height()+1, err))
+		}
+		return b
+	}
 	empties := func(n uint32) {
-		if n == 0 {
+		if n == 0 || dead {
 			return
 		}
-		for i := uint32(0); i < n; i++ {
-			if _, err := k.AddBlock(nil); err != nil {
-				panic(err)
-			}
+		for i := uint32(0); i < n && !dead; i++ {
+			addBlock(nil)
+		}
+		if dead {
+			return
 		}
 		c.Eval()
 		coqOps = append(coqOps, fmt.Sprintf("KE %d", n))
 	}
 	restart := func() {
+		if dead {
+			return
+		}
 		k.Close()
 		if err := k.Open(); err != nil {
 			panic(err)
@@ -154,6 +177,9 @@ func scenChain(c *hx.Ctx, in Input) {
 
 	// one block with random transactions
 	logBlock := func() {
+		if dead {
+			return
+		}
 		ntx := r.Intn(5)
 		var txs []*types.Transaction
 		var expected [][]Log
@@ -217,9 +243,9 @@ func scenChain(c *hx.Ctx, in Input) {
 				c.Count("chain:tx-native")
 			}
 		}
-		b, err := k.AddBlock(txs)
-		if err != nil {
-			panic(fmt.Sprintf("AddBlock at %d: %v", ch.height()+1, err))
+		b := addBlock(txs)
+		if dead {
+			return
 		}
 		record(b, expected)
 		c.Count(fmt.Sprintf("chain:block-txs=%d", ntx))
@@ -250,7 +276,7 @@ func scenChain(c *hx.Ctx, in Input) {
 		}
 		restartH := near + uint32(r.Intn(int(boundary-near)+4))
 		stop := boundary + uint32(2+r.Intn(4))
-		for ch.height()+1 < stop {
+		for ch.height()+1 < stop && !dead {
 			if ch.height()+1 == restartH {
 				restart()
 			}
@@ -260,6 +286,9 @@ func scenChain(c *hx.Ctx, in Input) {
 				logBlock()
 			}
 		}
+	}
+	if dead {
+		return
 	}
 	last := ch.height()
 	// final restart in half of the runs, so that the observations are read from a reopened ledger
@@ -324,9 +353,6 @@ func scenChain(c *hx.Ctx, in Input) {
 			}
 			return b
 		}, func(i uint) ([]byte, error) { return ledgerstore.ReadBloomBits(db, i, s) })
-		if raw == nil {
-			return
-		}
 		c.Count("chain:section-checked")
 		// end to end: the three vectors of every log item have the block's bit
 		for _, h := range heights {
@@ -335,8 +361,9 @@ func scenChain(c *hx.Ctx, in Input) {
 			}
 			for _, it := range allItems[h] {
 				for _, p := range positions(it) {
-					vec, err := decompress(raw[p])
-					if err != nil || !vecBit(vec, uint(h%S)) {
+					rv, present := raw[p]
+					vec, err := decompress(rv)
+					if !present || err != nil || !vecBit(vec, uint(h%S)) {
 						c.Fail("index:log-not-indexed", "a vector the matcher consults for a log item lacks the block's bit", in,
 							fmt.Sprintf("height %d item %x bit %d", h, it, p), "bit set")
 					}
@@ -344,7 +371,8 @@ func scenChain(c *hx.Ctx, in Input) {
 			}
 		}
 		for _, i := range pickBits(r, set, 16, 5) {
-			bits = append(bits, fmt.Sprintf("(%d, %d, %s)", i, s, coqOptBytes(raw[i], true)))
+			v, ok := raw[i]
+			bits = append(bits, fmt.Sprintf("(%d, %d, %s)", i, s, coqOptBytes(v, ok)))
 		}
 	}
 	c.Count(fmt.Sprintf("chain:sections=%d", last/S))
